@@ -64,6 +64,10 @@ mod storage;
 mod transaction_manager;
 mod version_manager;
 
+/// Verification hook: one-column encode/scan harness.
+#[cfg(feature = "verif")]
+pub mod verif;
+
 const MANIFEST_FILE_NAME: &str = "manifest.json";
 
 #[cfg(test)]
